@@ -25,4 +25,9 @@ CHECKS.update({
  'C19': _c('C19', 'A symbolic failing flag per row (and field), symbolic policy, policy source (argument vs config) and errorvalue; convert/fieldmap/rowmap/rowmapmany output is compared with a reference per policy, including when the exception surfaces.'),
  'C20': _c('C20', 'A sweep of >130 unary catalogue entries on header-only tables (three container kinds) for usual header / no rows / no exception, plus every multi-input operator with each header-only mask through the full relational oracles of C05-C10.'),
 })
+CHECKS.update({
+ 'C01': _c('C01', 'For every view of the catalogue (>200 constructor calls incl. sorts with memory/file cache, sort-backed operators, hash joins, cache(n), fromdicts on a generator, random tables, file/db extractors) the schedule of next()/re-create actions on 2 (thorough 3) iterators is a sequence of symbolic choices; every interleaving within the bound is explored; each iterator must deliver a prefix of (and on exhaustion exactly) the solo pass, and later passes must equal it.'),
+ 'C11': _c('C11', 'Part 1: every sort-backed operator is run differentially against its own default call with symbolic keys, buffersize (argument or petl.config), cache, tempdir and presorted on sorted inputs; part 2: symbolic histories of full/partial passes and source edits decide what cache=True/False means (reflect current contents vs replay a completed pass with zero source reads).'),
+ 'C18': _c('C18', 'Real temp files in a private directory: symbolic histories of create/advance/release operations over 2-3 iterator slots and the view, plus source failures at a symbolic row; after everything is released the directory must be empty, and every live iterator (also one outliving its view or served from the file cache) must deliver the sorted reference.'),
+})
 NOT_APPLICABLE = {}
